@@ -83,6 +83,8 @@ def flatten(x, prefix='', out=None):
         out = {}
     if isinstance(x, dict):
         for k, v in x.items():
+            if isinstance(k, str) and k.startswith('_'):
+                continue        # concrete-only observations (file export etc.)
             flatten(v, '%s.%s' % (prefix, k) if prefix else str(k), out)
     elif isinstance(x, (list, tuple)):
         for i, v in enumerate(x):
@@ -92,7 +94,7 @@ def flatten(x, prefix='', out=None):
     return out
 
 
-def _leaf_equal(sym_leaf, conc_leaf, model):
+def _leaf_equal(sym_leaf, conc_leaf, model, scale=1.0):
     if isinstance(sym_leaf, SR):
         if not isinstance(conc_leaf, (int, float)) or isinstance(conc_leaf, bool):
             return False, 'type %r' % type(conc_leaf).__name__
@@ -108,7 +110,7 @@ def _leaf_equal(sym_leaf, conc_leaf, model):
         return (sym_leaf == conc_leaf), '%r != %r' % (sym_leaf, conc_leaf)
     if got != got or exp != exp:
         return False, 'NaN'
-    if math.isclose(exp, got, rel_tol=1e-7, abs_tol=1e-9 * max(1.0, abs(exp))):
+    if math.isclose(exp, got, rel_tol=1e-7, abs_tol=1e-9 * max(1.0, abs(exp), scale)):
         return True, ''
     return False, 'expected %r got %r' % (exp, got)
 
@@ -305,6 +307,16 @@ def process(h, want_functions=False):
                 ok, why = _compare(out, cout, model)
                 if ok:
                     R['validated'] += 1
+                    # the oracle is also evaluated on the concrete run (covers concrete-only observations)
+                    cfailed, cdetail = check_ground(h, cout)
+                    if cfailed:
+                        cn = [f if isinstance(f, str) else f.name for f in cfailed]
+                        f0 = cfailed[0]
+                        ck = h.finding_key(f0 if isinstance(f0, Ob) else Ob(f0, z3.BoolVal(False)), vals)
+                        if ck not in [v['key'] for v in R['violations']]:
+                            R['violations'].append(dict(key=ck, harness=h.name, describe=h.describe(),
+                                                        obligation=cn[0], failed=cn[:10], inputs=vals, detail=cdetail,
+                                                        outcome=cout.status))
                 elif h.boundary_excuse(out, cout):
                     R['validation_boundary'] += 1
                 else:
@@ -316,30 +328,53 @@ def process(h, want_functions=False):
                                      decisions=len(res.decisions),
                                      inputs=_round(model_to_floats(eng, res.model)),
                                      obligations=[ob.name for ob in obs[:8]], n_obligations=len(obs)))
-    # stage 3: replay candidates on the unpatched library
+    # stage 3: replay candidates on the unpatched library.  Candidates are grouped by finding key; a group is a
+    # violation as soon as one of its counterexamples reproduces (the solver's first model may sit on a branch
+    # boundary that float rounding crosses: a second, interior model is then tried); a group none of whose
+    # counterexamples reproduces is inconclusive.
+    groups = {}
+    for cand in candidates:
+        res, ob, vals, from_unsupported = cand
+        gk = h.finding_key(ob, vals) if ob is not None else 'unsupported-path'
+        groups.setdefault(gk, []).append(cand)
     seen = set()
-    for res, ob, vals, from_unsupported in candidates:
-        out, cenv = run_concrete(h, vals)
-        if cenv.violated_assumption:
-            R['inconclusive'].append('counterexample violates assumption after rounding: %s'
-                                     % cenv.violated_assumption)
-            continue
-        failed, detail = check_ground(h, out)
-        if not failed:
-            R['inconclusive'].append('counterexample for %s did not reproduce on the real code (inputs %s)'
-                                     % (ob.name if ob else 'unsupported-path', _round(vals)))
-            continue
-        names = [f if isinstance(f, str) else f.name for f in failed]
-        fam = names[0].split('[')[0]
-        first = failed[0]
-        key = h.finding_key(first if isinstance(first, Ob) else Ob(first, z3.BoolVal(False)), vals)
-        if key in seen:
-            continue
-        seen.add(key)
-        R['violations'].append(dict(key=key, harness=h.name, describe=h.describe(), obligation=names[0],
-                                    failed=names[:10], inputs=vals, detail=detail,
-                                    outcome=(out.status + ((':' + type(out.exc).__name__ + ': ' + str(out.exc)[:200])
-                                                           if out.exc else ''))))
+    for gk, cands in groups.items():
+        confirmed = False
+        attempts = 0
+        last_note = ''
+        for res, ob, vals, from_unsupported in cands:
+            if confirmed or attempts >= 8:
+                break
+            trials = [vals]
+            if ob is not None:
+                m2, ok2 = interior_model(eng, res, extra=[z3.Not(ob.formula(robust=True))])
+                if ok2:
+                    trials.append(model_to_floats(eng, m2))
+            for tv in trials:
+                attempts += 1
+                out, cenv = run_concrete(h, tv)
+                if cenv.violated_assumption:
+                    last_note = 'counterexample violates assumption after rounding: %s' % cenv.violated_assumption
+                    continue
+                failed, detail = check_ground(h, out)
+                if not failed:
+                    last_note = 'counterexample for %s did not reproduce on the real code (inputs %s)' % (
+                        ob.name if ob else 'unsupported-path', _round(tv))
+                    continue
+                names = [f if isinstance(f, str) else f.name for f in failed]
+                first = failed[0]
+                key = h.finding_key(first if isinstance(first, Ob) else Ob(first, z3.BoolVal(False)), tv)
+                confirmed = True
+                if key in seen:
+                    break
+                seen.add(key)
+                R['violations'].append(dict(key=key, harness=h.name, describe=h.describe(), obligation=names[0],
+                                            failed=names[:10], inputs=tv, detail=detail,
+                                            outcome=(out.status + ((':' + type(out.exc).__name__ + ': ' +
+                                                                    str(out.exc)[:200]) if out.exc else ''))))
+                break
+        if not confirmed:
+            R['inconclusive'].append('%d candidate(s) for %s: %s' % (len(cands), gk, last_note))
     R['stats'] = dict(eng.stats)
     R['wall_s'] = time.time() - t0
     return R
@@ -377,8 +412,13 @@ def _compare(sym_out, conc_out, model):
     b = flatten(conc_out.value)
     if set(a) != set(b):
         return False, 'record keys differ: %s' % sorted(set(a) ^ set(b))[:5]
+    # cancellation: a value that is exactly 0 in reals carries the rounding noise of the largest magnitudes around
+    scale = 1.0
+    for v in b.values():
+        if isinstance(v, (int, float)) and not isinstance(v, bool) and v == v and abs(v) != math.inf:
+            scale = max(scale, abs(v))
     for k in a:
-        ok, why = _leaf_equal(a[k], b[k], model)
+        ok, why = _leaf_equal(a[k], b[k], model, scale)
         if not ok:
             return False, '%s: %s' % (k, why)
     return True, ''
